@@ -9,8 +9,8 @@ META = {
     "harness_bins": ["c12"],
     "extract": "C12.v",
     "technique": "Coq proof about an executable call-by-need abstract machine (thunk states Suspended/Blackholed/Evaluated, update frames, unwind, REPL session layer with per-input step budget): invariant black-holed = referenced by an update frame, soundness of memoised cells, and refinement of every session evaluation to a heap-free call-by-name evaluator of the stand-alone `let`-chain, for all histories including failed and abandoned evaluations; machine model and call-by-name spec are tied to the real ReplImpl / Program by differential replay of generated histories, and every input is also compared with a fresh stand-alone Program (direct oracle)",
-    "level_text": "Theorems (coq/Props/C12.v, closed under the global context, no axioms) quantify over EVERY history of inputs (let-definitions, eval, full eval, :query, eval_record_spine; each succeeding, failing at any depth, or abandoned after any number of machine steps = hook H1 budget) of the mechanism model coq/Mech/Machine.v (an executable reading of eval/mod.rs main loop, lazy.rs thunk states, stack.rs unwind, repl/mod.rs eval_): (1) blackhole_iff_on_stack: in every reachable configuration the black-holed thunks are exactly (multiset-exact) the thunks of the update frames; (2) unwind_clean / session_heap_good: after Drop/unwind no thunk is black-holed or locked and nothing else changed; (3) evaluated_cells_sound: every Evaluated thunk holds the call-by-name value of the closure it was created with; (4) session_equiv / session_equiv_full / session_equiv_query: an eval, a full evaluation or a :query in the session after any history yields the value / error class of the heap-free call-by-name meaning (coq/Mech/Spec.v) of `let x1 = e1 in ... in e`, and a reported InfiniteRecursion implies that this meaning diverges for every fuel (never spurious); session_vs_fresh: same outcome as the machine on an empty session whenever neither exhausts its budget; (5) the lock/unlock protocol of Program::eval_record_spine (eval_guarded) is modelled as a fifth input kind: every lock taken is released, also on the error / budget path (part of session_heap_good); (6) the machine without unwinding, and eval_guarded without the unlock on the error path, are refuted by vm_compute witnesses. Language of the model: variables, functions, let / let rec, integers, booleans, strict + - < with run-time type errors, if, recursive records with field access, std.fail_with; divergence and genuine infinite recursion are derivable. The model and the spec are hand-written; the tie to /repo is the correspondence run: the same generated histories (exhaustive over an 8-input alphabet after a 2-definition prelude up to length 4 in the thorough tier, seeded samples) are run on the extracted model, on the extracted call-by-name spec, on the real ReplImpl (budgets via verif_hooks::set_fuel) and, input by input, on fresh stand-alone Programs; additionally `:load` histories and repeated evaluation of ONE Program are checked against the fresh-Program oracle only.",
-    "level_note": "Trusted: Coq kernel (vm_compute only in the two _broken_refuted witnesses and Examples); extraction (ExtrOcamlBasic + ExtrOcamlNativeString); the hand-written reading of the Rust code in Machine.v (modelled, not verified: tied by correspondence only); hook H1; harness bin c12 and its s-expression -> Nickel printer; the generator. Modelling deviations, all stated in Machine.v: update_at_indices pops one frame per model step (Rust: all consecutive frames in one loop iteration); if-then-else uses one frame instead of Op1Cont + 2 Args; %force% (eval_full) and :query are drivers that start one machine run per thunk instead of re-scheduling inside one run (same thunks, same order, same values); ReplImpl's typechecking/unbound-identifier rejection is not modelled (generated inputs are well-scoped). session_equiv is proved for each of eval (weak head normal form), eval_full (deep data) and :query as the observed input, after histories containing all four input kinds. Outside the model (checked by the direct oracle of the correspondence run only, or not at all): `:load`, revertible thunks (merge/overriding), contracts, arrays, strings, imports and the stdlib's own thunks are outside the model (the last only through std.fail_with in the differential run).",
+    "level_text": "Theorems (coq/Props/C12.v, closed under the global context, no axioms) quantify over EVERY history of inputs (let-definitions, eval, full eval, :query, eval_record_spine; each succeeding, failing at any depth, or abandoned after any number of machine steps = hook H1 budget) of the mechanism model coq/Mech/Machine.v (an executable reading of eval/mod.rs main loop, lazy.rs thunk states, stack.rs unwind, repl/mod.rs eval_): (1) blackhole_iff_on_stack: in every reachable configuration the black-holed thunks are exactly (multiset-exact) the thunks of the update frames; (2) unwind_clean / session_heap_good: after Drop/unwind no thunk is black-holed or locked and nothing else changed; (3) evaluated_cells_sound: every Evaluated thunk holds the call-by-name value of the closure it was created with; (4) session_equiv / session_equiv_full / session_equiv_query: an eval, a full evaluation or a :query in the session after any history yields the value / error class of the heap-free call-by-name meaning (coq/Mech/Spec.v) of `let x1 = e1 in ... in e`, and a reported InfiniteRecursion implies that this meaning diverges for every fuel (never spurious); session_vs_fresh: same outcome as the machine on an empty session whenever neither exhausts its budget; (5) the lock/unlock protocol of Program::eval_record_spine (eval_guarded) is modelled as a fifth input kind: every lock taken is released, also on the error / budget path (part of session_heap_good); (6) the machine without unwinding, and eval_guarded without the unlock on the error path, are refuted by vm_compute witnesses. Language of the model: variables, functions, let / let rec, integers, booleans, strict + - < with run-time type errors, if, recursive records with field access, std.seq, record merge `&` for records whose fields are standard thunks (a merged field gets a thunk over COPIES of the two sides' thunks, as Thunk::saturate / make_unique do; merging a record with a field that depends on a sibling is the explicit outcome EOutOfFragment), std.fail_with; divergence and genuine infinite recursion are derivable. The machine the theorems are about creates a copy of a black-holed thunk Suspended (proposed/C12-saturate-state.diff); the variant in which a copy keeps the state (the pinned code) is refuted by vm_compute witnesses (session_equiv_thunk_copy_refuted, thunk_copy_order_refuted) and is a known finding of the correspondence run (key thunk-copy-blackholed). The model and the spec are hand-written; the tie to /repo is the correspondence run: the same generated histories (exhaustive over an 8-input alphabet after a 2-definition prelude up to length 4 in the thorough tier, seeded samples) are run on the extracted model, on the extracted call-by-name spec, on the real ReplImpl (budgets via verif_hooks::set_fuel) and, input by input, on fresh stand-alone Programs; additionally `:load` histories and repeated evaluation of ONE Program are checked against the fresh-Program oracle only.",
+    "level_note": "Trusted: Coq kernel (vm_compute only in the two _broken_refuted witnesses and Examples); extraction (ExtrOcamlBasic + ExtrOcamlNativeString); the hand-written reading of the Rust code in Machine.v (modelled, not verified: tied by correspondence only); hook H1; harness bin c12 and its s-expression -> Nickel printer; the generator. Modelling deviations, all stated in Machine.v: update_at_indices pops one frame per model step (Rust: all consecutive frames in one loop iteration); if-then-else uses one frame instead of Op1Cont + 2 Args; %force% (eval_full) and :query are drivers that start one machine run per thunk instead of re-scheduling inside one run (same thunks, same order, same values); ReplImpl's typechecking/unbound-identifier rejection is not modelled (generated inputs are well-scoped). session_equiv is proved for each of eval (weak head normal form), eval_full (deep data) and :query as the observed input, after histories containing all four input kinds. Outside the model (checked by the direct oracle of the correspondence run only, or not at all): `:load`, revertible thunks (recursive overriding: merge of records with dependent fields), contracts, arrays, strings, imports and the stdlib's own thunks are outside the model (the last only through std.fail_with in the differential run).",
 }
 
 NAMES = ["x", "y", "z", "w"]
@@ -35,6 +35,10 @@ def gen(rng, env, ty, d):
         return {"num": lit(rng), "bool": "(b %s)" % rng.choice("tf"),
                 "rec": "(rec (a %s))" % lit(rng), "fun": "(lam p (v p))"}[ty]
     c = rng.below(100)
+    if rng.chance(1, 25):
+        return "(seq %s %s)" % (gen(rng, env, rng.choice(["num", "bool", "rec", "fun"]), d - 1), gen(rng, env, ty, d - 1))
+    if ty == "rec" and rng.chance(1, 8):
+        return "(merge %s %s)" % (gen(rng, env, "rec", d - 1), gen(rng, env, "rec", d - 1))
     if c < 12 and vs:
         return "(v %s)" % rng.choice(vs)
     if c < 22:
@@ -140,6 +144,69 @@ def gen_history(rng, maxlen, loads=False):
 
 
 
+def gen_merge_history(rng, maxlen):
+    """Histories around merges performed WHILE a thunk is under evaluation: a recursive record whose
+    field `r` holds a record with fields that first force a sibling `m` (std.seq) and then fail,
+    succeed or run out of budget; `m` (and sometimes `m2`) merge `r` (or one another) with records
+    overlapping those fields, so that the merge copies / shares the thunks that are black-holed at
+    that moment.  Later inputs reach the merged fields."""
+    ys = rng.shuffle(["a", "b", "c"])[: rng.range(1, 3)]
+    two = rng.chance(1, 2)
+
+    def force():
+        c = rng.below(10)
+        if c < 5:
+            return "(v m)"
+        if c < 7:
+            return "(proj (v m) z)"
+        if c < 9 and two:
+            return "(v m2)"
+        return "(proj (v m) %s)" % rng.choice(ys)          # genuine recursion through the merge
+
+    def body():
+        c = rng.below(10)
+        if c < 4:
+            return bad(rng, [], 1)
+        if c < 7:
+            return "(letrec f (lam m (if (lt (v m) (n 1)) (n 0) (add (v m) (app (v f) (sub (v m) (n 1)))))) (app (v f) (n %d)))" % rng.range(1, 5)
+        return "(add %s %s)" % (lit(rng), lit(rng))
+
+    rfields = []
+    for y in ys:
+        b = body()
+        if rng.chance(4, 5):
+            b = "(seq %s %s)" % (force(), b)
+        rfields.append("(%s %s)" % (y, b))
+    if rng.chance(1, 3):
+        rfields.append("(w %s)" % lit(rng))
+    over = ["(%s %s)" % (y, lit(rng)) for y in ys if rng.chance(3, 4)] + ["(z %s)" % lit(rng)]
+    fields = ["(r (rec %s))" % " ".join(rfields), "(m (merge (v r) (rec %s)))" % " ".join(over)]
+    if two:
+        fields.append("(m2 (merge %s (rec (%s %s) (u %s))))" % (rng.choice(["(v m)", "(v r)"]), rng.choice(ys), lit(rng), lit(rng)))
+    out = []
+    if rng.chance(1, 3):
+        out.append("(def k %s)" % lit(rng))
+    out.append("(def o (rec %s))" % " ".join(fields))
+    tops = ["r", "m"] + (["m2"] if two else [])
+    for _ in range(rng.range(2, maxlen)):
+        t = rng.choice(tops)
+        f = rng.choice(ys + ["z", "w"])
+        c = rng.below(100)
+        if c < 55:
+            out.append("(eval %s (proj (proj (v o) %s) %s))" % (budget(rng), t, f))
+        elif c < 70:
+            out.append("(full %s (proj (v o) %s))" % (budget(rng), t))
+        elif c < 85:
+            out.append("(query %s o %s %s)" % (budget(rng), t, f))
+        else:
+            out.append("(eval %s (add (proj (proj (v o) %s) %s) (proj (proj (v o) %s) %s)))" % (budget(rng), t, f, rng.choice(tops), rng.choice(ys)))
+    for t in tops:
+        for y in ys:
+            out.append("(eval inf (proj (proj (v o) %s) %s))" % (t, y))
+    out.append("(full inf (proj (v o) m))")
+    return " ".join(out)
+
+
 def gen_context_history(rng, maxlen):
     """Context mode (one VmContext re-used the way nickel::Context::with_vm does): files written to
     a scratch directory on the import path, then budgeted evaluations of terms importing them."""
@@ -229,6 +296,14 @@ def split_inputs(case):
     return out
 
 
+KEY_THUNK_COPY = "thunk-copy-blackholed"
+
+
+def merge_class(inputs, j):
+    """The inputs up to and including j contain a record merge."""
+    return any("(merge " in i for i in inputs[: j + 1])
+
+
 def key_of(inp):
     return inp.split(" ", 1)[0].strip("(")
 
@@ -291,6 +366,12 @@ def compare(ck, mode, cases, impl_out, model_out, spec_out):
                 continue
             elif s == "ERR Budget" or o == "ERR Budget":
                 ck.count(mode + ":inconclusive_budget")
+            elif s != o and "ERR InfiniteRec" in (s, o) and merge_class(inputs, j):
+                # DIRECT ORACLE, known class: a thunk copied by a merge while it was under evaluation
+                ck.violation(KEY_THUNK_COPY,
+                             "input %d `%s` gives `%s` in the session but `%s` as a stand-alone program (a merge copied a black-holed thunk, in the session or in the stand-alone run)" % (j, inp, s, o),
+                             {"case": case, "mode": mode, "input": j, "session": sess, "oracle": orac})
+                continue
             elif s != o:
                 # DIRECT ORACLE: the session answer differs from the fresh stand-alone program
                 after = "after-abandoned" if abandoned else ("after-failed" if failed else "plain")
@@ -304,6 +385,11 @@ def compare(ck, mode, cases, impl_out, model_out, spec_out):
             if model is None:
                 continue
             m, p = model[j], spec[j]
+            if "ModelOutOfFragment" in m or "ModelOutOfFragment" in p:
+                # merge of a record with a field depending on a sibling: recursive overriding is
+                # outside the model (explicit outcome); the direct oracle above still applied
+                ck.count(mode + ":model_out_of_fragment")
+                continue
             if states and j < len(states) and states[j] != "0,0":
                 ck.obligation("model:unwind_clean", "correspondence", False, "model leaves %s black-holed,locked after input %d of %s" % (states[j], j, case))
             # model (machine) vs implementation (session)
@@ -316,6 +402,13 @@ def compare(ck, mode, cases, impl_out, model_out, spec_out):
                               "case %s\ninput %d `%s`: the model terminates (%s) within %d steps, the implementation exhausts its unlimited budget" % (case, j, inp, m, 5000))
             elif m == "ERR Budget" or s == "ERR Budget":
                 ck.count(mode + ":model_inconclusive_budget")
+            elif m != s and s == "ERR InfiniteRec" and merge_class(inputs, j):
+                # same known class seen inside ONE evaluation (the stand-alone program has it too):
+                # the order of evaluation decides whether the merge copies a black-holed thunk
+                ck.violation(KEY_THUNK_COPY,
+                             "input %d `%s` reports InfiniteRec (session and stand-alone program alike) although its call-by-name meaning is `%s`: a merge copied a black-holed thunk" % (j, inp, m),
+                             {"case": case, "mode": mode, "input": j, "session": sess, "oracle": orac, "model": model})
+                continue
             elif m != s:
                 ck.obligation("correspondence:model-vs-repl", "correspondence", False,
                               "case %s\ninput %d `%s`\nimpl  %s\nmodel %s" % (case, j, inp, s, m))
@@ -329,6 +422,10 @@ def compare(ck, mode, cases, impl_out, model_out, spec_out):
                 ck.count(mode + ":spec_inconclusive_budget")
                 if o == "ERR InfiniteRec" or p != "ERR Budget":
                     pass
+            elif o == "ERR InfiniteRec" and merge_class(inputs, j):
+                ck.violation(KEY_THUNK_COPY,
+                             "input %d `%s`: the stand-alone program reports InfiniteRec but its call-by-name meaning is `%s` (a merge copied a black-holed thunk)" % (j, inp, p),
+                             {"case": case, "mode": mode, "input": j, "oracle": orac, "spec": spec})
             elif o == "ERR InfiniteRec":
                 ck.obligation("correspondence:spec-vs-fresh-program", "correspondence", False,
                               "case %s\ninput %d: stand-alone program reports InfiniteRec but the call-by-name meaning is %s" % (case, j, p))
@@ -436,10 +533,13 @@ def run(ck):
     # 3. one Program evaluated repeatedly (budgeted, then unlimited): direct oracle only
     pcases = program_cases(cases[len(corpus()) + len(ex):][: (120 if quick else 1800)] + ex[: (40 if quick else 700)])
     run_stream(ck, "program", pcases, exe_impl, exe_model, with_model=True)
+    # 3b. merges performed while a thunk is under evaluation (direct oracle; see gen_merge_history)
+    mcases = [gen_merge_history(rng.fork(), 6) for _ in range(120 if quick else 3000)]
+    run_stream(ck, "repl-merge", mcases, exe_impl, exe_model, with_model=True)
     # 4. one VmContext re-used for several sources importing the same files (nickel::Context)
     ccases = [gen_context_history(rng.fork(), 6) for _ in range(80 if quick else 1500)]
     run_stream(ck, "context", ccases, exe_impl, exe_model, with_model=False)
-    ck.coverage["traces_validated_against_impl"] = len(cases) + len(lcases) + len(pcases) + len(ccases)
+    ck.coverage["traces_validated_against_impl"] = len(cases) + len(lcases) + len(pcases) + len(ccases) + len(mcases)
     ck.coverage["rule"] = ("history = sequence of REPL inputs (def / eval / full / query, each with a step budget K of hook H1 or unlimited; "
                            "K small = evaluation abandoned mid-way) generated from SplitMix64(VERIF_SEED): typed term generator with ~6% failing/ill-typed/diverging nodes, "
                            "followed by probes re-evaluating every definition; non-trivial = >= 3 inputs and at least one failed or abandoned input; distinct by text")
@@ -454,4 +554,4 @@ def replay(ck, path):
     exe_model = ck.model("C12.v")
     if ok and exe_model and "case" in obj:
         mode = obj.get("mode", "repl")
-        run_stream(ck, mode if mode in ("program", "context") else "repl", [obj["case"]], core.harness_bin("c12"), exe_model, with_model=(mode in ("repl", "program")))
+        run_stream(ck, mode if mode in ("program", "context") else "repl", [obj["case"]], core.harness_bin("c12"), exe_model, with_model=(mode in ("repl", "program", "repl-merge")))
